@@ -5,7 +5,7 @@
    (shape: I<z> C<z> Y<symnum> S<hex bytes> A(<shape>,<shape>..); code = the REAL hash code
     of that key; dstr/djson = how the key is spelled inside (str h) / as a quoted object key of (json h)), which selects
    the current universe, or a history
-       <mode> <uid> s<i>=<v> d<i> ...        mode A (builtins applied) | S (script)
+       <mode> <uid> [c<N>] s<i>=<v> d<i> ...  mode A (builtins applied) | S (script); c<N>: the first N are constructor pairs
    over key indices of the current universe.  The observation printed is the one made
    after the whole history (every prefix is a case of its own in the exhaustive part). *)
 open Model
@@ -139,8 +139,15 @@ let positions nops =
   List.init (top + 2) (fun i -> z_of_int (i - 1))
 
 let history (mode : string) (ops : string list) : string * string =
+  (* an optional first token c<N>: the first N operations (all hset) are the pairs given to the constructor *)
+  let ctor, ops = (match ops with
+    | c :: r when String.length c > 1 && c.[0] = 'c' -> int_of_string (String.sub c 1 (String.length c - 1)), r
+    | _ -> 0, ops) in
   let ops = List.map parse_op ops in
-  let t = List.fold_left (fun t o -> step ceq keq hcode unwrap t o) empty ops in
+  let rec split n l = if n = 0 then [], l else (match l with [] -> [], [] | x :: r -> let a, b = split (n - 1) r in x :: a, b) in
+  let cops, rest = split ctor ops in
+  let pairs = List.map (function OSet (k, v) -> (k, v) | ODel _ -> failwith "hdel among the constructor pairs") cops in
+  let t = List.fold_left (fun t o -> step ceq keq hcode unwrap t o) (make_hash ceq hcode unwrap pairs) rest in
   let s = List.fold_left (fun s o -> s_step keq unwrap s o) [] ops in
   let ks = Array.to_list !ukeys in
   let pos = positions (List.length ops) in
